@@ -325,8 +325,8 @@ def structural_faults(rnd, gt, sp):
             ea(d)
             try:
                 eb(d)
-            except (IndexError, KeyError, TypeError):
-                pass
+            except (IndexError, KeyError, TypeError, AttributeError):
+                pass  # the first fault removed what the second would edit
         out.append(("double:%s+%s" % (na.split(":")[0], nb.split(":")[0]),
                     both))
     return out
